@@ -758,3 +758,67 @@ def np_flatnonzero(ex, args, kwargs, node):
         return np_where1(ex, [a], {}, node)[0]
     r = np_argwhere(ex, [a], {}, node)
     return r.ghost["sorted_unique_flat"]
+
+
+# ---------------------------------------------------------------------------------------------- counting (np.sum of a mask)
+# count_true(M, k) = number of positions j in [0, k) with M[j].  Uninterpreted, with its defining equations and the two
+# consequences the solver cannot derive itself (they need induction on k; each is a two-line induction over the defining step:
+# the count never decreases and grows by at most one per position) instantiated for every mask term that is counted.
+F_COUNT = z3.Function("count_true", z3.ArraySort(V.INT, V.BOOL), V.INT, V.INT)
+
+
+def count_term(ex, mask_term, n):
+    """mask_term: a z3 array Int -> Bool (possibly a lambda).  Lambdas cannot occur in E-matching patterns, so every distinct
+    mask is named by an array constant defined pointwise; structurally equal masks share the constant."""
+    seen = ex.ctx.__dict__.setdefault("_count_masks", [])
+    for m, c in seen:
+        if m.eq(mask_term):
+            M = c
+            break
+    else:
+        M = z3.Const(fresh_name("mask"), z3.ArraySort(V.INT, V.BOOL))
+        seen.append((mask_term, M))
+        k, a, b = z3.Int(fresh_name("k")), z3.Int(fresh_name("a")), z3.Int(fresh_name("b"))
+        C = lambda x: F_COUNT(M, x)
+        ax = ex.ctx.global_axioms
+        ax.append(z3.ForAll([k], z3.Select(M, k) == z3.Select(mask_term, k), patterns=[z3.Select(M, k)]))
+        ax.append(z3.ForAll([k], z3.Implies(k <= 0, C(k) == 0), patterns=[C(k)]))
+        ax.append(z3.ForAll([k], z3.Implies(k >= 1, C(k) == C(k - 1) + z3.If(z3.Select(M, k - 1), 1, 0)), patterns=[C(k)]))
+        ax.append(z3.ForAll([a, b], z3.Implies(a <= b, z3.And(C(a) <= C(b), C(b) - C(a) <= z3.If(b < 0, 0, b) - z3.If(a < 0, 0, a))),
+                            patterns=[z3.MultiPattern(C(a), C(b))]))
+        ax.append(z3.ForAll([k], z3.And(C(k) >= 0, C(k) <= z3.If(k < 0, 0, k)), patterns=[C(k)]))
+        # a counted position separates the counts strictly: C(a) < C(a + 1) <= C(b)
+        ax.append(z3.ForAll([a, b], z3.Implies(z3.And(0 <= a, a < b, z3.Select(M, a)), C(a) < C(b)), patterns=[z3.MultiPattern(C(a), C(b))]))
+    return F_COUNT(M, to_z3(n, "int"))
+
+
+def _mask_term(v):
+    if not isinstance(v, Arr) or v.rank != 1 or v.kind != "bool":
+        raise Unsupported("count of something else than a 1-D boolean array")
+    return v.term
+
+
+_np_sum_small = MODELS["numpy.sum"]
+
+
+@model("numpy.sum")
+def np_sum_mask(ex, args, kwargs, node):
+    """np.sum(mask) of a 1-D boolean array: the number of True entries"""
+    v = args[0]
+    if isinstance(v, Arr) and v.rank == 1 and v.kind == "bool" and len(args) == 1 and not kwargs:
+        return count_term(ex, v.term, v.shape[0])
+    return _np_sum_small(ex, args, kwargs, node)
+
+
+@spec("count")
+def sp_count(ex, args, kwargs, node):
+    """count(hi, lambda k: cond): number of k in [0, hi) with cond  (the value np.sum gives for the mask [cond(k) for k in range(n)])"""
+    hi, lam = args
+    from .symexec import _SpecFrame
+    name = lam.node.args.args[0].arg
+    k = z3.Int(fresh_name("k"))
+    e2 = dict(lam.env)
+    e2[name] = k
+    from .npmodels import truthy
+    body = to_z3(truthy(ex.eval(lam.node.body, e2, _SpecFrame(ex))), "bool")
+    return count_term(ex, z3.Lambda([k], body), hi)
